@@ -35,17 +35,27 @@ Variable ps : progs.
 Variable c : cfg.
 Hypothesis HD : disciplined ps = true.
 
-Definition ann (p : nat) : annot := infer_prog (nth p ps []).
+Definition ann (p : nat) : annot := infer_prog (is_init p) (nth p ps []).
 
 Definition cur_a (th : tstate) : option astate :=
   match pc th with Some (p, i) => an_get (ann p) i (r_ret th) | None => Some a0 end.
 
-Lemma check_ann : forall p, check_prog (nth p ps []) (ann p) = true.
+Lemma combine_seq_nth : forall (l : list prog) k p pr, nth_error l p = Some pr -> In (k + p, pr) (combine (seq k (length l)) l).
 Proof.
-  intros. unfold ann. unfold disciplined in HD. rewrite forallb_forall in HD.
-  destruct (nth_in_or_default p ps []) as [Hin | Hd].
-  - apply HD. auto.
-  - rewrite Hd. vm_compute. reflexivity.
+  induction l; intros k p pr Hn. destruct p; discriminate.
+  destruct p; simpl in *.
+  - inv Hn. left. f_equal. lia.
+  - right. replace (k + S p) with (S k + p) by lia. apply IHl. auto.
+Qed.
+
+Lemma check_ann : forall p, check_prog (is_init p) (nth p ps []) (ann p) = true.
+Proof.
+  intros. unfold ann. unfold disciplined in HD. apply andb_true_iff in HD. destruct HD as [Hne HD']. rewrite forallb_forall in HD'.
+  destruct (nth_error ps p) as [pr|] eqn:E.
+  - rewrite (nth_error_nth _ _ _ E). apply (HD' (p, pr)). apply (combine_seq_nth ps 0 p pr E).
+  - apply nth_error_None in E. rewrite nth_overflow by auto.
+    assert (Hp : is_init p = false). { destruct ps; try discriminate. destruct p; simpl in E; try lia. reflexivity. }
+    rewrite Hp. vm_compute. reflexivity.
 Qed.
 
 Lemma fetch_nth : forall p i, fetch ps p i = nth_error (nth p ps []) i.
@@ -55,15 +65,15 @@ Proof.
   - apply nth_error_None in E. rewrite nth_overflow; auto. destruct i; reflexivity.
 Qed.
 
-Lemma check_at_ann : forall p i b, i <= length (nth p ps []) -> check_at (nth p ps []) (ann p) i b = true.
+Lemma check_at_ann : forall p i b, i <= length (nth p ps []) -> check_at (is_init p) (nth p ps []) (ann p) i b = true.
 Proof.
   intros. pose proof (check_ann p) as H0. unfold check_prog in H0. apply andb_true_iff in H0. destruct H0 as [_ H0].
   rewrite forallb_forall in H0. specialize (H0 i). rewrite in_seq in H0.
-  assert (A : check_at (nth p ps []) (ann p) i false && check_at (nth p ps []) (ann p) i true = true) by (apply H0; lia).
+  assert (A : check_at (is_init p) (nth p ps []) (ann p) i false && check_at (is_init p) (nth p ps []) (ann p) i true = true) by (apply H0; lia).
   apply andb_true_iff in A. destruct b; tauto.
 Qed.
 
-Lemma entry_ann : forall p b, exists x, an_get (ann p) 0 b = Some x /\ leq a0 x = true.
+Lemma entry_ann : forall p b, exists x, an_get (ann p) 0 b = Some x /\ leq (a0e (is_init p)) x = true.
 Proof.
   intros. pose proof (check_ann p) as H0. unfold check_prog in H0. apply andb_true_iff in H0. destruct H0 as [H0 _].
   destruct (an_get (ann p) 0 false) as [x|] eqn:E1; try discriminate. destruct (an_get (ann p) 0 true) as [y|] eqn:E2; try discriminate.
@@ -202,7 +212,7 @@ Proof.
   cbn [fold_left]. etransitivity. apply Hone. apply Hone.
 Qed.
 
-Lemma length_infer : forall pr, length (infer_prog pr) = S (length pr).
+Lemma length_infer : forall init pr, length (infer_prog init pr) = S (length pr).
 Proof.
   intros. unfold infer_prog.
   assert (forall l an, length (fold_left (infer_step pr) l an) = length an).
@@ -391,7 +401,17 @@ Proof.
   - red; intros. eapply sat_frame; eauto. apply same_regs_refl.
 Qed.
 
-Lemma req_stmt : forall rd wr e a, req (Stmt rd wr e) a = true ->
+Lemma sat_set_alg : forall g t th a s1 s2 r1 r2 np, sat g t th a -> sat g t th (set_alg_facts s1 s2 r1 r2 np a).
+Proof. intros g t th a s1 s2 r1 r2 np []. constructor; simpl; auto. Qed.
+
+Lemma stmt_boring_alg : forall g ts t th a g' th' s1 s2 r1 r2 np,
+  GI g ts -> nth_error ts t = Some th -> sat g t th a -> same_study g g' -> same_gi g g' -> same_regs th th' ->
+  stmt_goal g ts t g' th' (set_alg_facts s1 s2 r1 r2 np a).
+Proof.
+  intros. destruct (stmt_boring g ts t th a g' th') as [A [B C]]; auto. split; [|split]; auto. apply sat_set_alg. auto.
+Qed.
+
+Lemma req_stmt : forall ini rd wr e a, req ini (Stmt rd wr e) a = true ->
   a_ok a = true /\ forallb (fun v => guarded (write_guard v) (a_locks a)) wr = true /\ req_eff e a = true /\ footprint_ok (Stmt rd wr e) = true.
 Proof. unfold req; intros. bool_hyps. auto. Qed.
 
@@ -1090,17 +1110,18 @@ Qed.
 End OneStmt.
 
 
-Lemma stmt_sound : forall e rd wr a g ts t th,
+Lemma stmt_sound : forall ini e rd wr a g ts t th,
   LockInv g ts -> GI g ts -> (forall t' th2, nth_error ts t' = Some th2 -> thread_ok g t' th2) ->
-  nth_error ts t = Some th -> sat g t th a -> req (Stmt rd wr e) a = true ->
+  nth_error ts t = Some th -> sat g t th a -> req ini (Stmt rd wr e) a = true ->
   forall g' th', sem c t e g th = (g', th') -> stmt_goal g ts t g' th' (post_eff e a).
 Proof.
-  intros e rd wr a g ts t th HL HG HT Ht Hs Hreq g' th' Hsem.
+  intros ini e rd wr a g ts t th HL HG HT Ht Hs Hreq g' th' Hsem.
   pose proof (s_study _ _ _ _ Hs) as Hst0.
-  destruct (req_stmt _ _ _ _ Hreq) as [Hok [Hwg [Hre Hfp]]].
+  destruct (req_stmt _ _ _ _ _ Hreq) as [Hok [Hwg [Hre Hfp]]].
   destruct e;
   try (unfold sem, muts, regs, study_of in Hsem; rewrite Hst0 in Hsem; simpl in Hsem;
-       repeat destr_match; injection Hsem as Eg Eth; subst g' th'; simpl post_eff; eapply stmt_boring; eauto; constructor; reflexivity).
+       repeat destr_match; injection Hsem as Eg Eth; subst g' th'; simpl post_eff;
+       first [ eapply stmt_boring; eauto; constructor; reflexivity | eapply stmt_boring_alg; eauto; constructor; reflexivity ]).
   - eapply stmt_ENewStudy; eauto.
   - eapply stmt_ERegister; eauto.
   - eapply stmt_ELookup; eauto.
@@ -1127,7 +1148,7 @@ Qed.
 
 (* ---- what the checker guarantees at a program point ---------------------------------------------------------------- *)
 Lemma check_succ : forall p i b a gt x, an_get (ann p) i b = Some a -> nth_error (nth p ps []) i = Some (gt, x) ->
-  req x a = true /\ forall j b' a', In (j, b', a') (succs i b a x) -> exists a'', an_get (ann p) j b' = Some a'' /\ leq a' a'' = true.
+  req (is_init p) x a = true /\ forall j b' a', In (j, b', a') (succs i b a x) -> exists a'', an_get (ann p) j b' = Some a'' /\ leq a' a'' = true.
 Proof.
   intros p i b a gt x Ha Hn. pose proof (an_get_bound _ _ _ _ Ha) as Hb.
   pose proof (check_at_ann p i b Hb) as Hc. unfold check_at in Hc. rewrite Ha, Hn in Hc.
@@ -1137,11 +1158,11 @@ Proof.
 Qed.
 
 Lemma check_end : forall p i b a, an_get (ann p) i b = Some a -> nth_error (nth p ps []) i = None ->
-  a_ok a = true /\ a_locks a = [] /\ no_debt a = true.
+  a_ok a = true /\ a_locks a = [] /\ no_debt a = true /\ f_spec a = true.
 Proof.
   intros p i b a Ha Hn. pose proof (an_get_bound _ _ _ _ Ha) as Hb.
   pose proof (check_at_ann p i b Hb) as Hc. unfold check_at in Hc. rewrite Ha, Hn in Hc.
-  apply andb_true_iff in Hc. destruct Hc as [Hr Hf]. destruct (a_locks a); try discriminate. auto.
+  apply andb_true_iff in Hc. destruct Hc as [Hr Hf]. destruct (a_locks a); try discriminate. apply andb_true_iff in Hf. tauto.
 Qed.
 
 (* returning to the script (or finishing): the next program point is the entry of a program, annotated with a0 *)
@@ -1150,7 +1171,7 @@ Lemma thread_ok_entry : forall g t th th', sat g t th a0 -> same_regs th th' ->
 Proof.
   intros g t th th' Hs Hsr Hpc. unfold thread_ok, cur_a. destruct Hpc as [Hpc | [p Hpc]]; rewrite Hpc.
   - exists a0. split; auto. eapply sat_frame; eauto. apply same_study_refl.
-  - destruct (entry_ann p (r_ret th')) as [x [A B]]. exists x. split; auto. eapply sat_leq; eauto. eapply sat_frame; eauto. apply same_study_refl.
+  - destruct (entry_ann p (r_ret th')) as [x [A B]]. exists x. split; auto. eapply sat_leq; eauto. unfold a0e. apply sat_set_alg. eapply sat_frame; eauto. apply same_study_refl.
 Qed.
 
 Lemma to_script_pc : forall au ra th, pc (to_script au ra th) = None \/ exists p, pc (to_script au ra th) = Some (p, 0).
@@ -1253,11 +1274,11 @@ Proof.
   repeat split; intros; subst; auto. destruct (t_done x); reflexivity.
 Qed.
 
-Lemma branch_sound : forall cn rd off a g ts t th,
-  LockInv g ts -> GI g ts -> nth_error ts t = Some th -> sat g t th a -> req (Branch rd cn off) a = true ->
+Lemma branch_sound : forall ini cn rd off a g ts t th,
+  LockInv g ts -> GI g ts -> nth_error ts t = Some th -> sat g t th a -> req ini (Branch rd cn off) a = true ->
   branch_goal cn a g ts t th.
 Proof.
-  intros cn rd off a g ts t th HL HG Ht Hs Hreq. pose proof (s_study _ _ _ _ Hs) as Hst0.
+  intros ini cn rd off a g ts t th HL HG Ht Hs Hreq. pose proof (s_study _ _ _ _ Hs) as Hst0.
   destruct cn; try (apply branch_plain; auto; simpl; intros; try discriminate; fail).
   - (* CConst *) apply branch_plain; auto. simpl. destruct b; discriminate.
   - (* CRegMissing *)
@@ -1345,6 +1366,11 @@ Proof.
   - (* CRewardSome *)
     apply branch_plain; auto. simpl static_cond. destruct (f_reward a) eqn:Er; try discriminate. intros E. inv E.
     pose proof (s_reward _ _ _ _ Hs Er). simpl in H0. destruct (r_reward th); try congruence. discriminate.
+  - (* CSpecNone: only the algorithm facts of the next layer change *)
+    unfold branch_goal. simpl note_full. simpl note_branch. split; [simpl; discriminate|]. split; [|split].
+    + destruct (evalc c CSpecNone g th); simpl post_br; apply sat_set_alg; auto.
+    + intros. eapply GI_frame; eauto. apply same_gi_refl. apply (sr_gh _ _ H). intros. eapply same_regs_holds; eauto.
+    + red; auto.
 Qed.
 
 
@@ -1378,7 +1404,7 @@ Proof.
   destruct (HT _ _ Ht) as [a [Hcur Hs]]. unfold cur_a in Hcur. rewrite Hpc in Hcur.
   destruct Hcase as [[Hf [Hg Hts]] | [gate [x [th' [Hf [Hact Hts]]]]]].
   - (* falling off the end of an entry *)
-    subst g' ts'. rewrite fetch_nth in Hf. destruct (check_end _ _ _ _ Hcur Hf) as [Hok [Hlk Hnd]].
+    subst g' ts'. rewrite fetch_nth in Hf. destruct (check_end _ _ _ _ Hcur Hf) as [Hok [Hlk [Hnd Hfs]]].
     pose proof (sat_a0 _ _ _ _ Hs Hlk Hnd) as Hs0.
     eapply Inv_assemble; eauto.
     + eapply GI_frame; eauto. apply same_gi_refl. apply (sr_gh _ _ (same_regs_to_script _ _ th)). intros; eapply same_regs_holds; eauto. apply same_regs_to_script.
@@ -1417,7 +1443,7 @@ Proof.
       * apply others_same_study. constructor; reflexivity.
     + (* Stmt *)
       destruct (sem c t e g th) as [g1 th1] eqn:Esem. inv Hact.
-      destruct (stmt_sound e rd wr a g ts t th HL HG HT Ht Hs Hreq g1 th1 Esem) as [S1 [S2 S3]].
+      destruct (stmt_sound _ e rd wr a g ts t th HL HG HT Ht Hs Hreq g1 th1 Esem) as [S1 [S2 S3]].
       assert (Hret : exists b' a', In (S i, b', a') (succs i (r_ret th) a (Stmt rd wr e)) /\ r_ret th1 = b' /\ sat g1 t th1 a').
       { pose proof (regs_ret t e g th) as Hr.
         assert (Eth : th1 = regs c t e g th) by (unfold sem in Esem; inv Esem; reflexivity).
@@ -1437,8 +1463,8 @@ Proof.
         eapply sat_frame; [apply same_study_refl | apply same_regs_pc | exact Hsa].
     + (* Branch *)
       inv Hact. unfold req in Hreq.
-      assert (Hrb : req (Branch rd c0 off) a = true) by exact Hreq.
-      destruct (branch_sound c0 rd off a g ts t th HL HG Ht Hs Hrb) as [B1 [B2 [B3 B4]]].
+      assert (Hrb : req (is_init p) (Branch rd c0 off) a = true) by exact Hreq.
+      destruct (branch_sound _ c0 rd off a g ts t th HL HG Ht Hs Hrb) as [B1 [B2 [B3 B4]]].
       set (b := evalc c c0 g th) in *.
       assert (Hin : In ((if b then S i else S i + off), r_ret th, post_br c0 b a) (succs i (r_ret th) a (Branch rd c0 off))).
       { simpl. destruct (static_cond (r_ret th) a c0) as [[|]|] eqn:Est; destruct b; simpl in *; auto; exfalso; apply B1; reflexivity. }
@@ -1455,23 +1481,21 @@ Proof.
       * eapply thread_ok_at with (a' := a); simpl; eauto. eapply sat_frame; [apply same_study_refl | apply same_regs_pc | exact Hs].
       * apply others_refl.
     + (* Throw *)
-      unfold req in Hreq. bool_hyps. destruct (a_locks a) eqn:Elk; try discriminate.
+      unfold req in Hreq. bool_hyps. destruct (a_locks a) eqn:Elk; try discriminate. bool_hyps.
       pose proof (sat_a0 _ _ _ _ Hs Elk ltac:(assumption)) as Hs0.
-      destruct k; inv Hact.
-      * eapply Inv_assemble; eauto.
-        -- eapply GI_frame; eauto. apply same_gi_refl.
-        -- eapply thread_ok_entry; eauto. apply same_regs_pc.
-        -- apply others_refl.
-      * eapply Inv_assemble; eauto.
-        -- eapply GI_frame; eauto. apply same_gi_refl. apply (sr_gh _ _ (same_regs_to_script _ _ th)). intros; eapply same_regs_holds; eauto. apply same_regs_to_script.
-        -- eapply thread_ok_entry; eauto. apply same_regs_to_script. apply to_script_pc.
-        -- apply others_refl.
-      * eapply Inv_assemble; eauto.
-        -- eapply GI_frame; eauto. apply same_gi_refl. apply (sr_gh _ _ (same_regs_to_script _ _ th)). intros; eapply same_regs_holds; eauto. apply same_regs_to_script.
-        -- eapply thread_ok_entry; eauto. apply same_regs_to_script. apply to_script_pc.
-        -- apply others_refl.
+      assert (Hfin : g' = g -> th' = th_pc None th -> Inv g' (set_th ts t th')).
+      { intros; subst. eapply Inv_assemble; eauto.
+        - eapply GI_frame; eauto. apply same_gi_refl.
+        - eapply thread_ok_entry; eauto. apply same_regs_pc.
+        - apply others_refl. }
+      assert (Hscr : g' = g -> th' = to_script None true th -> Inv g' (set_th ts t th')).
+      { intros; subst. eapply Inv_assemble; eauto.
+        - eapply GI_frame; eauto. apply same_gi_refl. apply (sr_gh _ _ (same_regs_to_script _ _ th)). intros; eapply same_regs_holds; eauto. apply same_regs_to_script.
+        - eapply thread_ok_entry; eauto. apply same_regs_to_script. apply to_script_pc.
+        - apply others_refl. }
+      destruct k; try destruct (Nat.eqb p P_init); injection Hact as Eg Eth; auto.
     + (* Done *)
-      unfold req in Hreq. bool_hyps. destruct (a_locks a) eqn:Elk; try discriminate.
+      unfold req in Hreq. bool_hyps. destruct (a_locks a) eqn:Elk; try discriminate. bool_hyps.
       pose proof (sat_a0 _ _ _ _ Hs Elk ltac:(assumption)) as Hs0. inv Hact.
       eapply Inv_assemble; eauto.
       * eapply GI_frame; eauto. apply same_gi_refl. apply (sr_gh _ _ (same_regs_to_script _ _ th)). intros; eapply same_regs_holds; eauto. apply same_regs_to_script.
